@@ -253,6 +253,10 @@ def check(case) -> Verdict:
 
     if r.exception or r.timed_out:
         return bad('escaped-exception-or-timeout', exception=r.exception)
+    if r.leaked_out:
+        # something was written to the stdout of the process that is not what Exactly printed itself (a program run
+        # for an instruction that was not given a stdout of its own): under the command line this is stdout too
+        return bad('output-on-stdout-of-the-process', leaked=r.leaked_out[:300])
     if exp.get('usage'):
         if r.exit_code != USAGE_EXIT:
             return bad('usage-exit-code')
